@@ -293,8 +293,10 @@ func c09Receiver(c *vf.Ctx) {
 			addrs   []labAddr
 			reason  string
 			deliver bool
+			special bool // no marker among the addresses
 		}
 		var hist []expect
+		specialByCid := map[string]int{}
 		var cov struct{ evict, refresh, uncacheDeliver, rejectedThenDelivered, dupRejected int }
 		uncached := map[int]bool{}
 		rejectedCids := map[int]bool{}
@@ -312,6 +314,9 @@ func c09Receiver(c *vf.Ctx) {
 						ci = q
 					}
 				}
+				if k0, special := specialByCid[s]; special {
+					ci = 2_000_000 + k0
+				}
 			}
 			cd = c09Cid(ci)
 			if r.Intn(8) == 0 {
@@ -327,11 +332,25 @@ func c09Receiver(c *vf.Ctx) {
 				labs = append(labs, c20GenLabAddr(r))
 			}
 			addrs := []multiaddr.Multiaddr{c09Marker(k)}
+			// one announcement in ten carries no address that is usable from outside (and no marker: it has a CID of
+			// its own, by which its delivery is recognised)
+			if r.Intn(10) == 0 {
+				labs = labs[:0]
+				for len(labs) < 1+k%3 {
+					if l := c20GenLabAddr(r); l.class == "private" || l.class == "loopback" || l.class == "unspecified" {
+						labs = append(labs, l)
+					}
+				}
+				ci = 2_000_000 + k
+				cd = c09Cid(ci)
+				specialByCid[cd.String()] = k
+				addrs = addrs[:0]
+			}
 			for _, l := range labs {
 				addrs = append(addrs, l.ma)
 			}
 			r.Shuffle(len(addrs), func(x, y int) { addrs[x], addrs[y] = addrs[y], addrs[x] })
-			ex := expect{call: k, cid: cd, peer: p.ID, addrs: labs}
+			ex := expect{call: k, cid: cd, peer: p.ID, addrs: labs, special: len(addrs) == len(labs)}
 			if !allowed(p.ID) {
 				ex.deliver, ex.reason = false, "peer not allowed"
 				rejectedCids[ci] = true
@@ -402,6 +421,9 @@ func c09Receiver(c *vf.Ctx) {
 		var order []int
 		for _, g := range got {
 			m, ok := markerOf(g)
+			if k, special := specialByCid[g.Cid.String()]; special && !ok {
+				m, ok = k, true
+			}
 			if !ok {
 				c.Fail(sub, i, "delivered-without-marker", fmt.Sprint(g), nil)
 				continue
@@ -440,6 +462,10 @@ func c09Receiver(c *vf.Ctx) {
 			}
 			// addresses
 			want := map[string]int{c09Marker(ex.call).String(): 1}
+			if ex.special {
+				want = map[string]int{}
+				c.Inc("delivered_announcements_without_any_public_address")
+			}
 			for _, l := range ex.addrs {
 				if !filterIPs || l.class == "public" || l.class == "dns" {
 					want[l.ma.String()]++
